@@ -1073,3 +1073,55 @@ func ruleD6f(c *Ctx) {
 		})
 	}
 }
+
+// ---------------------------------------------------------------- L5c
+
+// ruleL5c: the Set's mutex holder is write-once.
+func ruleL5c(c *Ctx) {
+	R := c.R
+	p := c.P
+	R.Rule("L5c", "dt.atomic (the holder of a Set's mutex) is write-once: its value is only loaded, or stored by CompareAndSwap(nil, x) / CompareAndSwap(x, x); there is no Store or Swap (a second WithLock with another mutex must leave the first in place — two callers locking different mutexes exclude nobody)", 2)
+	n := 0
+	for _, f := range p.FuncsIn("dt") {
+		info := f.Info()
+		walkNoLit(f.Body, func(x ast.Node) bool {
+			se, ok := x.(*ast.SelectorExpr)
+			if !ok || se.Sel.Name != "val" {
+				return true
+			}
+			s := info.Selections[se]
+			if s == nil || s.Kind() != types.FieldVal || !typeIs(s.Recv(), "dt", "atomic") {
+				return true
+			}
+			n++
+			at := fmt.Sprintf("%s/val#%d", f.Name, n)
+			pos := p.Position(se.Pos())
+			msel, ok := p.Parent(se).(*ast.SelectorExpr)
+			call, isCall := p.Parent(msel).(*ast.CallExpr)
+			if !ok || !isCall || call.Fun != ast.Expr(msel) {
+				R.Fail("L5c", at, pos, f.Name+": the holder's value is used other than through Load / CompareAndSwap ("+nodeStr(p.Parent(se))+")")
+				return true
+			}
+			switch msel.Sel.Name {
+			case "Load":
+				R.OK("L5c", at, pos, "Load")
+			case "CompareAndSwap":
+				okForm := false
+				if len(call.Args) == 2 {
+					if id, isId := ast.Unparen(call.Args[0]).(*ast.Ident); isId {
+						if _, isNil := info.Uses[id].(*types.Nil); isNil {
+							okForm = true
+						}
+					}
+					if exprStr(call.Args[0]) == exprStr(call.Args[1]) {
+						okForm = true
+					}
+				}
+				R.Check(okForm, "L5c", at, pos, exprStr(call), f.Name+": "+exprStr(call)+" replaces a value that is set by a different one: the holder is no longer write-once")
+			default:
+				R.Fail("L5c", at, pos, fmt.Sprintf("%s: %s overwrites the holder unconditionally: a second WithLock (which reports failure) has already replaced the mutex, so goroutines that read the holder before and after it lock different mutexes", f.Name, exprStr(call)))
+			}
+			return true
+		})
+	}
+}
